@@ -353,3 +353,45 @@ def hosvd_train(ctx, d, m, mix):
         res = D.matmul(ctx, ctx.lift(np.diag(np.ones(fac[i].s.shape[0]))), fac[i].Vh) if False else D.matmul(ctx, _diag(ctx, fac[i].s), fac[i].Vh)
     cores.append(captured['last'])
     ctx.eq('HOSVD train (trivial factorisations) == transformed data tensor', D.tt_full(ctx, cores).reshape(T.shape), T)
+
+
+# ------------------------------------------------------------ scale of the basis functions (concrete only)
+@scenario('C18', 'scale_invariance', lambda tier: [{'c': 1e-5, 'variant': 'hosvd'}, {'c': 1e3, 'variant': 'hosvd'}, {'c': 1e3, 'variant': 'hocur'}])     # HOCUR's pivot search has absolute tolerances of its own: tiny scales are outside
+def scale_invariance(ctx, c, variant):
+    """NOT a solver verdict (floating-point scale, outside exact arithmetic): the eigenvalues do not depend on a common factor of the basis functions --
+    every cut in the method is relative.  Product basis {1, x_i} * c in three modes (features of size c^3), linear dynamics, compared with the dense
+    EDMD eigenvalues (same relative cut 1e-3)"""
+    ted, tdt = ctx.R.tedmd, ctx.R.transform
+    if ctx.mode == 'tv':
+        raise SkipTV()
+    if ctx.sym:
+        ctx.held('scale invariance is exercised by the concrete validation run of this scenario (sampling, stated in the evidence)')
+        return
+    rng = np.random.RandomState(17)
+    d, m = 3, 40
+    X = rng.rand(d, m) * 2 - 1
+    Y = np.diag([0.9, 0.7, 0.5]) @ X
+    data = np.hstack([X, Y])
+    xi, yi = np.arange(0, m), np.arange(m, 2 * m)
+
+    class F(object):
+        def __init__(self, idx, k):
+            self.idx, self.k = idx, k
+
+        def __call__(self, t):
+            return c * (1.0 if self.k == 0 else t[self.idx])
+    phi = [[F(i, 0), F(i, 1)] for i in range(d)]
+    if variant == 'hosvd':
+        ev, _ = ted.amuset_hosvd(data, xi, yi, phi, threshold=0)
+    else:
+        np.random.seed(5)
+        ev, _ = ted.amuset_hocur(data, xi, yi, phi, max_rank=1000, multiplier=2)
+    Psi = np.array([[np.prod([float(phi[i][k](data[:, j])) for i, k in enumerate(idx)]) for j in range(2 * m)] for idx in itertools.product((0, 1), repeat=d)])
+    K = np.linalg.pinv(Psi[:, xi].T, rcond=1e-3) @ Psi[:, yi].T
+    lam = np.linalg.eigvals(K)
+    lam = lam[np.abs(lam) > 1e-8]
+    ref = np.real(lam[np.argsort(np.abs(lam - 1))])
+    ev = np.real(np.asarray(ev))
+    ctx.check('number of eigenvalues == number of non-zero eigenvalues of the matrix EDMD', len(ev) == len(ref), detail='%d vs %d' % (len(ev), len(ref)))
+    k = min(len(ev), len(ref))
+    ctx.eq('eigenvalues == those of the matrix EDMD for basis functions scaled by %g' % c, np.sort(ev[:k]), np.sort(ref[:k]), tol=1e-6)
